@@ -39,6 +39,19 @@ def ckey(t):
     return key(t)
 
 
+_UNSIGNED = ("size_t", "uint8_t", "uint16_t", "uint32_t", "uint64_t", "unsigned int", "unsigned long",
+             "unsigned char", "unsigned short", "ldb_seqnum_t", "unsigned long long")
+
+
+def _is_unsigned(t):
+    t = strip_casts(t)
+    if not isinstance(t, dict):
+        return False
+    ty = t.get("t", "")
+    ty = ty.replace("const ", "").replace("volatile ", "").strip()
+    return ty in _UNSIGNED
+
+
 def norm_literal(cond, pol):
     """-> list of (op, a, b) relational atoms that hold when cond has truth
     value pol.  a/b are operand keys.  Unknown shapes give ('!=', key, '0')."""
@@ -51,6 +64,11 @@ def norm_literal(cond, pol):
     if k == "bin" and t["op"] in NEG:
         op = t["op"] if pol else NEG[t["op"]]
         a, b = ckey(t["l"]), ckey(t["r"])
+        # unsigned operand against 0:  x <= 0  is  x == 0,  x > 0  is  x != 0
+        if b == "0" and _is_unsigned(t["l"]):
+            op = {"<=": "==", ">": "!="}.get(op, op)
+        elif a == "0" and _is_unsigned(t["r"]):
+            op = {">=": "==", "<": "!="}.get(op, op)
         out = [(op, a, b)]
         # (x = f()) != 0 : also speaks about x
         for side, other in ((t["l"], t["r"]), (t["r"], t["l"])):
@@ -182,7 +200,7 @@ def always_nonzero(P, name, caller=None, _depth=0):
     k = (f.file, f.line, f.name)
     if k in cache:
         return cache[k]
-    if not f.ret.startswith("int"):
+    if not (f.ret.startswith("int") or f.ret.endswith("*")):
         cache[k] = False
         return False
     if _depth > 6:
@@ -557,10 +575,10 @@ class XGraph(object):
         # precompute per block kill info
         kill = {}
         for bid, b in fn.blocks.items():
-            kv, kf, kc = set(), set(), set()
+            kv, kf, kc, kfc = set(), set(), set(), set()
             for e in b.ev:
-                self._kills(e, kv, kf, kc, ms)
-            kill[bid] = (kv, kf, kc)
+                self._kills(e, kv, kf, kc, ms, kfc)
+            kill[bid] = (kv, kf, kc, kfc)
         work = deque([self.start])
         inq = {self.start}
         while work:
@@ -595,7 +613,19 @@ class XGraph(object):
             return []
         return norm_literal(lit[0], lit[1])
 
-    def _kills(self, e, kv, kf, kc, ms):
+    def _locals(self):
+        r = getattr(self, "_local_names", None)
+        if r is None:
+            r = {p["n"] for p in self.fn.params}
+            for b, i, e in self.fn.events("decl"):
+                if not e.get("static"):
+                    r.add(e["n"])
+            self._local_names = r
+        return r
+
+    def _kills(self, e, kv, kf, kc, ms, kfc=None):
+        if kfc is None:
+            kfc = kf
         k = e["e"]
         if k in ("asg", "inc"):
             lhs = strip_casts(e.get("lhs") or e.get("x"))
@@ -623,15 +653,17 @@ class XGraph(object):
                         kv.add(v)
             if k == "call":
                 for g in self.P.callees(self.fn, e):
-                    kf.update(ms.get(g, ()))
+                    kfc.update(ms.get(g, ()))
 
     def _apply_kill(self, atoms, kill):
-        kv, kf, kc = kill
-        if not atoms or not (kv or kf or kc):
+        if len(kill) == 3:
+            kill = kill + (set(),)
+        kv, kf, kc, kfc = kill
+        if not atoms or not (kv or kf or kc or kfc):
             return atoms
         out = set()
         for a in atoms:
-            if self._atom_killed(a, kv, kf, kc):
+            if self._atom_killed(a, kv, kf, kc, kfc):
                 continue
             out.add(a)
         return frozenset(out)
@@ -643,20 +675,33 @@ class XGraph(object):
         r = cls._tok_cache.get(s)
         if r is None:
             import re
-            ids = set(re.findall(r"[A-Za-z_][A-Za-z_0-9]*", s))
             calls = set(re.findall(r"#(\d+)", s))
-            fields = set(re.findall(r"(?:->|\.)([A-Za-z_][A-Za-z_0-9]*)", s))
+            if re.search(r"\)#\d+$", s):
+                # the recorded result of one execution of a call site: a fact about the
+                # past, independent of later changes to the argument objects
+                ids, fields = set(), set()
+            else:
+                ids = set(re.findall(r"[A-Za-z_][A-Za-z_0-9]*", s))
+                fields = set(re.findall(r"(?:->|\.)([A-Za-z_][A-Za-z_0-9]*)", s))
             r = (ids, calls, fields)
             cls._tok_cache[s] = r
         return r
 
-    def _atom_killed(self, a, kv, kf, kc):
+    def _atom_killed(self, a, kv, kf, kc, kfc=()):
+        import re
         for s in (a[1], a[2]):
             ids, calls, fields = self._tokens(s)
             if kv and (ids - fields) & kv:
                 return True
             if kf and fields & kf:
                 return True
+            if kfc and fields & kfc:
+                # a callee may store a field of that name; it cannot reach a by-value
+                # local struct of this function unless its address is passed to that
+                # call (then the base variable is in kv)
+                m = re.match(r"^([A-Za-z_]\w*)(\.\w+)+$", s)
+                if not (m and m.group(1) in self._locals()):
+                    return True
             if kc and any(int(c) in kc for c in calls):
                 return True
         return False
@@ -671,10 +716,10 @@ class XGraph(object):
             cur = IN[n]
             if cur is None:
                 continue
-            kv, kf, kc = set(), set(), set()
+            kv, kf, kc, kfc = set(), set(), set(), set()
             for e in self.fn.blocks[bid].ev[:idx]:
-                self._kills(e, kv, kf, kc, ms)
-            cur = self._apply_kill(cur, (kv, kf, kc))
+                self._kills(e, kv, kf, kc, ms, kfc)
+            cur = self._apply_kill(cur, (kv, kf, kc, kfc))
             res = cur if res is None else (res & cur)
         return res
 
